@@ -19,6 +19,8 @@ import (
 
 // ---- engine-level panics (never visible to the target program)
 
+var profileSites = os.Getenv("GOSYMX_PROFILE") != ""
+
 type engineError string // unsupported construct / internal error => inconclusive
 
 type pathEnd struct{ reason string } // stop this path silently (infeasible, assumption false, ...)
@@ -78,6 +80,8 @@ type Config struct {
 	Trace         bool
 	Deadline      time.Time
 	ExpectPanic   bool
+	NoANF         bool
+	ANFCheck      bool
 	StopOnViolate bool
 }
 
@@ -98,6 +102,9 @@ type Result struct {
 	Obligations     int            `json:"obligations"`
 	Discharged      int            `json:"discharged"`
 	Trivial         int            `json:"trivially_true"`
+	ByANF           int            `json:"discharged_by_anf"`
+	ANFConfirmed    int            `json:"anf_confirmed_by_smt"`
+	ANFUnconfirmed  int            `json:"anf_smt_unknown"`
 	Unknown         int            `json:"unknown"`
 	MergedRegions   int            `json:"merged_regions"`
 	Forks           int            `json:"forks"`
@@ -128,6 +135,9 @@ func (r *Result) merge(o *Result) {
 	r.Obligations += o.Obligations
 	r.Discharged += o.Discharged
 	r.Trivial += o.Trivial
+	r.ByANF += o.ByANF
+	r.ANFConfirmed += o.ANFConfirmed
+	r.ANFUnconfirmed += o.ANFUnconfirmed
 	r.Unknown += o.Unknown
 	r.MergedRegions += o.MergedRegions
 	r.Forks += o.Forks
@@ -389,6 +399,9 @@ func (wk *worker) runItem(it workItem) {
 		r.Obligations += ps.obligations
 		r.Discharged += ps.discharged
 		r.Trivial += ps.trivial
+		r.ByANF += ps.byANF
+		r.ANFConfirmed += ps.anfConfirmed
+		r.ANFUnconfirmed += ps.anfUnconfirmed
 		r.Unknown += ps.unknown
 		r.MergedRegions += ps.merged
 		r.Forks += ps.forks
@@ -432,34 +445,37 @@ func (wk *worker) runItem(it workItem) {
 // ---- per-path state
 
 type pathState struct {
-	wk            *worker
-	prefix        []decision
-	pos           int
-	trace         []decision
-	pc            []*Term
-	pending       []workItem
-	retryAt       int
-	mergeStack    []int
-	nondetCount   map[string]int
-	nondetVars    []*Term
-	obligations   int
-	discharged    int
-	trivial       int
-	unknown       int
-	merged        int
-	forks         int
-	distinctObl   int
-	reach         map[string]int
-	funcs         map[*ssa.Function]int
-	stubs         map[string]int
-	bounds        []string
-	samples       []string
-	notes         []string
-	violations    []Violation
-	inconclusive  []string
-	endedByAssume bool
-	expectPanic   bool
-	end           string
+	wk             *worker
+	prefix         []decision
+	pos            int
+	trace          []decision
+	pc             []*Term
+	pending        []workItem
+	retryAt        int
+	mergeStack     []int
+	nondetCount    map[string]int
+	nondetVars     []*Term
+	obligations    int
+	discharged     int
+	trivial        int
+	byANF          int
+	anfConfirmed   int
+	anfUnconfirmed int
+	unknown        int
+	merged         int
+	forks          int
+	distinctObl    int
+	reach          map[string]int
+	funcs          map[*ssa.Function]int
+	stubs          map[string]int
+	bounds         []string
+	samples        []string
+	notes          []string
+	violations     []Violation
+	inconclusive   []string
+	endedByAssume  bool
+	expectPanic    bool
+	end            string
 }
 
 func (ps *pathState) describe() string {
@@ -523,6 +539,7 @@ func (wk *worker) runPath(prefix []decision) (ps *pathState) {
 	call(i, nil, token.NoPos, wk.harness, nil)
 	i.checkEnd()
 	ps.end = "returned"
+	debugf("path returned: %s\n", compress(ps.describe()))
 	return ps
 }
 
@@ -540,6 +557,10 @@ func (ps *pathState) handlePanic(i *interpreter, p any) {
 			return
 		}
 		ps.retryAt = ps.mergeStack[len(ps.mergeStack)-1]
+		debugf("unmergeable: %s%s\n", p.why, i.where())
+		if profileSites {
+			ps.stubs["unmergeable:"+p.why+i.where()]++
+		}
 	case deadSide:
 		ps.end = "pathEnd:infeasible"
 	case engineError:
@@ -679,6 +700,9 @@ func (i *interpreter) decide(c *Term, why string) bool {
 	if len(ps.trace) >= i.cfg.MaxDecisions {
 		panic(engineError(fmt.Sprintf("unwinding cap: more than %d decisions on one path (%s)", i.cfg.MaxDecisions, why)))
 	}
+	if profileSites {
+		ps.stubs["decide:"+why+i.where()]++
+	}
 	rT, _ := ps.wk.check(i.pcWith(c), nil)
 	var rF SatResult
 	if rT == Unsat {
@@ -744,6 +768,9 @@ func (i *interpreter) concretize(t *Term, why string) uint64 {
 	for _, e := range excl {
 		conds = append(conds, tt.Not(tt.Eq(t, i.constLike(t, e))))
 	}
+	if profileSites {
+		ps.stubs["concretize:"+why+i.where()]++
+	}
 	res, model := ps.wk.solver.Check(conds, []*Term{t})
 	switch res {
 	case Unsat:
@@ -756,7 +783,35 @@ func (i *interpreter) concretize(t *Term, why string) uint64 {
 		}
 		panic(pathEnd{"infeasible"})
 	case Unknown:
-		panic(engineError("solver unknown while concretising (" + why + ")"))
+		// the term is a tree of constants: keep every leaf not yet taken as
+		// a possibly-infeasible value (over-approximates the path set; an
+		// infeasible path can only hold vacuously, it cannot raise an alarm
+		// because alarms need a solver model of the path condition)
+		leaves, okLeaves := constLeaves(t, 64)
+		if !okLeaves {
+			panic(engineError("solver unknown while concretising (" + why + ")"))
+		}
+		found := false
+		for _, l := range leaves {
+			taken := false
+			for _, e := range excl {
+				if e == l {
+					taken = true
+				}
+			}
+			if !taken {
+				model = map[int]uint64{t.ID: l}
+				found = true
+				break
+			}
+		}
+		if !found {
+			if !i.guard.IsTrue() {
+				panic(deadSide{})
+			}
+			panic(pathEnd{"infeasible"})
+		}
+		ps.notes = appendUnique(ps.notes, "feasibility of a value unknown at "+why+" (value kept)")
 	}
 	v := model[t.ID]
 	nex := append(append([]uint64(nil), excl...), v)
@@ -827,8 +882,26 @@ func (i *interpreter) assert(c *Term, msg string) {
 		ps.wk.oblSeen[key] = true
 		ps.distinctObl++
 	}
-	if len(ps.samples) < 2 && c.size < 400 {
-		ps.samples = append(ps.samples, msg+": (not "+i.tt.show(c, 6)+") under "+fmt.Sprint(len(ps.pc))+" path conjuncts")
+	if len(ps.samples) < 2 && (c.size < 400 || profileSites) {
+		ps.samples = append(ps.samples, msg+": (not "+i.tt.show(c, showDepth())+") under "+fmt.Sprint(len(ps.pc))+" path conjuncts")
+	}
+	if !i.cfg.NoANF {
+		if valid, ok := i.tt.anfValidUnder(i.pcWith(), c, 4000000); ok && valid {
+			ps.byANF++
+			ps.discharged++
+			if i.cfg.ANFCheck {
+				// cross-check the normal-form verdict with the SMT solver
+				switch r, _ := ps.wk.check(conds, nil); r {
+				case Unsat:
+					ps.anfConfirmed++
+				case Sat:
+					ps.inconclusive = append(ps.inconclusive, "GF(2) normal form and SMT solver DISAGREE on obligation: "+msg+i.where())
+				default:
+					ps.anfUnconfirmed++
+				}
+			}
+			return
+		}
 	}
 	res, _ := ps.wk.check(conds, nil)
 	switch res {
@@ -899,4 +972,82 @@ func debugf(format string, args ...any) {
 	if os.Getenv("GOSYMX_DEBUG") != "" {
 		fmt.Fprintf(os.Stderr, format, args...)
 	}
+}
+
+// compress drops merge markers from a decision string (debug output).
+func compress(s string) string { return strings.ReplaceAll(s, "m", "") }
+
+func showDepth() int {
+	if profileSites {
+		return 12
+	}
+	return 6
+}
+
+// constLeaves over-approximates the set of values of a term that is a tree
+// of ite / zero-padding concat over constants and very narrow terms.
+func constLeaves(t *Term, cap int) ([]uint64, bool) {
+	memo := map[int][]uint64{}
+	var walk func(x *Term) ([]uint64, bool)
+	walk = func(x *Term) ([]uint64, bool) {
+		if v, ok := memo[x.ID]; ok {
+			return v, true
+		}
+		var out []uint64
+		add := func(v uint64) {
+			for _, e := range out {
+				if e == v {
+					return
+				}
+			}
+			out = append(out, v)
+		}
+		switch {
+		case x.W > 64:
+			return nil, false
+		case x.Op == OpConst:
+			add(x.Val)
+		case x.Op == OpIte:
+			a, ok1 := walk(x.Args[1])
+			b, ok2 := walk(x.Args[2])
+			if !ok1 || !ok2 {
+				return nil, false
+			}
+			for _, v := range a {
+				add(v)
+			}
+			for _, v := range b {
+				add(v)
+			}
+		case x.Op == OpConcat:
+			a, ok1 := walk(x.Args[0])
+			b, ok2 := walk(x.Args[1])
+			if !ok1 || !ok2 || len(a)*len(b) > cap {
+				return nil, false
+			}
+			for _, h := range a {
+				for _, l := range b {
+					add(h<<uint(x.Args[1].W) | l)
+				}
+			}
+		case x.Op == OpZExt:
+			a, ok := walk(x.Args[0])
+			if !ok {
+				return nil, false
+			}
+			out = a
+		case x.W >= 1 && x.W <= 3:
+			for v := uint64(0); v < 1<<uint(x.W); v++ {
+				add(v)
+			}
+		default:
+			return nil, false
+		}
+		if len(out) > cap {
+			return nil, false
+		}
+		memo[x.ID] = out
+		return out, true
+	}
+	return walk(t)
 }
